@@ -62,6 +62,22 @@ CHECKS = {
         design_ref='DESIGN.md §5 C16',
         note='Trusted base: vf/refcodec.py, my reading of the PICO-8 formats, validated in-run on the PICO-8-written carts in tests/testdata.',
         technique='runtime monitoring: differential oracle against independent reference codecs'),
+    'C06': dict(
+        category='exploration',
+        text='The real default writer is run on generated programs in random layouts and on a string-literal enumerator; source and echo are both lexed by the '
+             'independent reference lexer and compared token by token (bytes outside quoted strings, decoded value inside), and picotool\'s token positions must '
+             'tile the source. A sample goes through the CLI copy paths.',
+        design_ref='DESIGN.md §5 C06',
+        note='Trusted base: vf/reflex.py (validated token-for-token on the PICO-8-written carts in tests/testdata). Domain = sources the reference lexer accepts.',
+        technique='runtime monitoring: differential oracle (reference lexer on input and output)'),
+    'C07': dict(
+        category='exploration',
+        text='Differential monitor: picotool\'s token list vs the reference lexer on every ordered pair from a pool of all symbols/keywords/literal forms (adjacent and '
+             'spaced), numeric/string/identifier enumerators and generated programs; kinds, extents, positions, string bytes and numeric values compared; '
+             'single-chunk vs per-line-chunk runs compared; a sample delivered through reference-written .p8/.p8.png files.',
+        design_ref='DESIGN.md §5 C07',
+        note='Trusted base: vf/reflex.py, my reading of Lua 5.2 §3.1 plus the PICO-8 extensions the properties name. Sources it rejects are out of domain.',
+        technique='runtime monitoring: differential oracle against an independent reference lexer'),
 }
 
 NOT_BUILT = 'check not built yet in this session (design in DESIGN.md §5); not claimed until its monitor runs silent on the unchanged tree'
